@@ -29,6 +29,8 @@ def gen_case(rng, i, tier):
     main = TG(rng.fork("m"), data, helpers, ["p0"], opt={"missing": 0.2}).template(3)
     if rng.chance(0.3):
         main = "a\n  {{> p0}}\nb\n" + main       # prevent_indent matters
+    if cfg["prevent_indent"] or rng.chance(0.2):
+        main = "i\n    {{> mlp}}\nj\n" + main     # a multi-line partial behind indentation: every line or only the first
     if rng.chance(0.3):
         # several hash arguments whose evaluation order is observable: more than one failing argument (which error is
         # reported) – every compilation of the source must agree
@@ -46,7 +48,7 @@ def gen_case(rng, i, tier):
         bad = rng.pick(["{{nosuchA 1}}", "{{lookup}}", "{{> nosuchpartial}}", "{{*nosuchdeco}}"])
         main += rng.pick(["\n{{#> pbw}}x\n {{BAD}}{{/pbw}}", "{{#*inline \"il\"}}i {{BAD}}{{/inline}}\n\n  {{> pbi}}",
                           "{{#> nosuchp}}fb{{BAD}}{{/nosuchp}}"]).replace("{{BAD}}", bad)
-    devfile = rng.chance(0.25)
+    devfile = rng.chance(0.3)
     if devfile:
         # dev mode: the partial comes from a file that changes (or disappears) after registration – every entry point
         # must see the file as it is at render time
@@ -59,6 +61,11 @@ def gen_case(rng, i, tier):
                {"op": "reg_string", "reg": 0, "name": "main", "src": main},
                {"op": "reg_template", "reg": 0, "name": "pre", "src": main, "tname": "main"},
                ({"op": "write_file", "file": "f1", "content": p0} if rng.chance(0.8) else {"op": "delete_file", "file": "f1"})]
+        if rng.chance(0.5):
+            # the rendered template itself is tracked: render(name) re-reads and recompiles its file, render_template(the same
+            # text) compiles the string – same registry settings, same bytes
+            k = [o.get("name") == "main" and o["op"] == "reg_string" for o in ops].index(True)
+            ops[k:k + 1] = [{"op": "write_file", "file": "f0", "content": main}, {"op": "reg_file", "reg": 0, "name": "main", "file": "f0"}]
     else:
         ops = [{"op": "reg_string", "reg": 0, "name": "p0", "src": p0},
                {"op": "reg_string", "reg": 0, "name": "pbw", "src": "<\n{{> @partial-block}}>"},
